@@ -19,7 +19,7 @@ Definition dec_op (k a b c d e : Z) : op :=
   else if k =? 2 then OConnLost
   else if k =? 3 then ORx (dec_inpkt a b c d) (z2b e)
   else if k =? 4 then OAck a b
-  else OBlock (z2b a).
+  else OTransport (if a =? 1 then TBlock else if a =? 2 then TFail else TAccept).
 
 Fixpoint dec_ops (fuel : nat) (l : list Z) : list op :=
   match fuel with
@@ -115,7 +115,7 @@ Definition enc_state (s : sess) : list Z :=
   ++ flat_map enc_omsg (out s)
   ++ [Z.of_nat (length (inm s))]
   ++ flat_map (fun p => [fst p; snd p]) (inm s)
-  ++ [b2z (sock s && blocked s); Z.of_nat (length (outq s))]
+  ++ [(if sock s then match tm s with TAccept => 0 | TBlock => 1 | TFail => 2 end else 0); Z.of_nat (length (outq s))]
   ++ flat_map (fun x => enc_pkt (q_pkt x) ++ [b2z (q_info x)]) (outq s).
 
 Definition enc_step (r : sess * list event) : list Z :=
